@@ -275,6 +275,34 @@ type spec struct {
 	HexAT        string            `json:"hex_at,omitempty"`
 	HexAnn       map[string]string `json:"hex_ann,omitempty"`
 	HexConfigAnn map[string]string `json:"hex_config_ann,omitempty"`
+	HexLayers    []string          `json:"hex_layers,omitempty"` // descriptor tokens (showDesc), when a layer string is not UTF-8
+	HexConfig    string            `json:"hex_config,omitempty"`
+	// history: the specs (JSON) of the calls made before this one on the same target, oldest first
+	Prev []string `json:"prev,omitempty"`
+}
+
+// chainState: a target shared by consecutive cases (a history of different calls); the store the
+// model starts from is everything put there so far.
+type chainState struct {
+	inner   storage
+	cleanup func()
+	entries []string
+	target  string
+	prev    []string
+}
+
+var chain *chainState
+
+func startChain(target string) {
+	inner, cleanup := newTarget(target)
+	chain = &chainState{inner: inner, cleanup: cleanup, target: target}
+}
+
+func endChain() {
+	if chain != nil {
+		chain.cleanup()
+		chain = nil
+	}
 }
 
 func hexMap(m map[string]string) map[string]string {
@@ -302,8 +330,67 @@ func validMap(m map[string]string) bool {
 	return true
 }
 
+func validDesc(d ocispec.Descriptor) bool {
+	ok := utf8.ValidString(d.MediaType) && utf8.ValidString(string(d.Digest)) && utf8.ValidString(d.ArtifactType) && validMap(d.Annotations)
+	for _, u := range d.URLs {
+		ok = ok && utf8.ValidString(u)
+	}
+	return ok
+}
+
+func unhexList(s, sep string) []string {
+	var out []string
+	for _, x := range strings.Split(s, sep) {
+		out = append(out, common.UnHex(x))
+	}
+	return out
+}
+
+// parseDescToken is the inverse of showDesc.
+func parseDescToken(t string) ocispec.Descriptor {
+	f := strings.Split(t, ":")
+	if len(f) != 7 || f[0] != "D" {
+		panic("descriptor token " + t)
+	}
+	sz, _ := strconv.ParseInt(f[3], 10, 64)
+	d := ocispec.Descriptor{MediaType: common.UnHex(f[1]), Digest: digest.Digest(common.UnHex(f[2])), Size: sz, ArtifactType: common.UnHex(f[5])}
+	if f[4] != "-" {
+		d.Annotations = map[string]string{}
+		for _, kv := range strings.Split(f[4], ";") {
+			p := strings.SplitN(kv, "=", 2)
+			d.Annotations[common.UnHex(p[0])] = common.UnHex(p[1])
+		}
+	}
+	x := strings.Split(f[6], "~")
+	if x[0] != "_" {
+		d.URLs = unhexList(x[0], ".")
+	}
+	if x[1] != "_" {
+		d.Data = []byte(common.UnHex(x[1]))
+	}
+	if x[2] != "_" {
+		p := strings.Split(x[2], ".")
+		d.Platform = &ocispec.Platform{Architecture: common.UnHex(p[0]), OS: common.UnHex(p[1]), OSVersion: common.UnHex(p[2]), Variant: common.UnHex(p[4])}
+		if p[3] != "_" {
+			d.Platform.OSFeatures = unhexList(p[3], "+")
+		}
+	}
+	return d
+}
+
 // decodeHex restores the raw strings of a replayed spec.
 func (sp *spec) decodeHex() {
+	if sp.HexLayers != nil {
+		sp.Layers = nil
+		for _, t := range sp.HexLayers {
+			sp.Layers = append(sp.Layers, parseDescToken(t))
+		}
+		sp.HexLayers = nil
+	}
+	if sp.HexConfig != "" {
+		d := parseDescToken(sp.HexConfig)
+		sp.Config, sp.HexConfig = &d, ""
+	}
 	if sp.HexAT != "" {
 		sp.AT, sp.HexAT = common.UnHex(sp.HexAT), ""
 	}
@@ -317,6 +404,14 @@ func (sp *spec) decodeHex() {
 
 // nonUTF8 reports whether a caller string that reaches the manifest document is not valid UTF-8.
 func (sp *spec) nonUTF8() bool {
+	for _, l := range sp.Layers {
+		if !validDesc(l) {
+			return true
+		}
+	}
+	if sp.Config != nil && !validDesc(*sp.Config) {
+		return true
+	}
 	return !utf8.ValidString(sp.AT) || !validMap(sp.Ann) || !validMap(sp.ConfigAnn)
 }
 
@@ -357,6 +452,13 @@ func sanDescP(d *ocispec.Descriptor) *ocispec.Descriptor {
 	c := *d
 	c.MediaType, c.ArtifactType, c.Digest = sanString(c.MediaType), sanString(c.ArtifactType), digest.Digest(sanString(string(c.Digest)))
 	c.Annotations = sanMap(c.Annotations)
+	if c.URLs != nil {
+		us := make([]string, len(c.URLs))
+		for i, u := range c.URLs {
+			us[i] = sanString(u)
+		}
+		c.URLs = us
+	}
 	return &c
 }
 
@@ -480,22 +582,37 @@ func showAnn(m map[string]string) string {
 	return strings.Join(out, ";")
 }
 
+// descExtra: urls~data~platform ("_" = absent), see ml/c19_main.ml extra_of
 func descExtra(d ocispec.Descriptor) string {
-	x := struct {
-		URLs     []string          `json:"urls,omitempty"`
-		Data     []byte            `json:"data,omitempty"`
-		Platform *ocispec.Platform `json:"platform,omitempty"`
-	}{d.URLs, d.Data, d.Platform}
-	js, _ := json.Marshal(x)
-	if string(js) == "{}" {
-		return ""
+	u, dt, p := "_", "_", "_"
+	if len(d.URLs) > 0 {
+		var hs []string
+		for _, x := range d.URLs {
+			hs = append(hs, common.Hex(x))
+		}
+		u = strings.Join(hs, ".")
 	}
-	return string(js)
+	if len(d.Data) > 0 {
+		dt = common.Hex(string(d.Data))
+	}
+	if d.Platform != nil {
+		f := "_"
+		if len(d.Platform.OSFeatures) > 0 {
+			var hs []string
+			for _, x := range d.Platform.OSFeatures {
+				hs = append(hs, common.Hex(x))
+			}
+			f = strings.Join(hs, "+")
+		}
+		p = strings.Join([]string{common.Hex(d.Platform.Architecture), common.Hex(d.Platform.OS), common.Hex(d.Platform.OSVersion), f,
+			common.Hex(d.Platform.Variant)}, ".")
+	}
+	return u + "~" + dt + "~" + p
 }
 
 func showDesc(d ocispec.Descriptor) string {
 	return fmt.Sprintf("D:%s:%s:%d:%s:%s:%s", common.Hex(d.MediaType), common.Hex(string(d.Digest)), d.Size,
-		showAnn(d.Annotations), common.Hex(d.ArtifactType), common.Hex(descExtra(d)))
+		showAnn(d.Annotations), common.Hex(d.ArtifactType), descExtra(d))
 }
 
 func showODesc(d *ocispec.Descriptor) string {
@@ -714,6 +831,28 @@ func callPack(sp *spec, p content.Pusher) (ocispec.Descriptor, error) {
 
 // descOf512 describes data by its SHA-512 digest (registered algorithm, other blob directory /
 // key space in every target).
+const callTimeout = 20 * time.Second
+
+// callPackWatched runs the call under a watchdog (the targets are in-process; nothing in Pack waits
+// on anything, so a wedge can only come from a changed code path).
+func callPackWatched(sp *spec, p content.Pusher) (ocispec.Descriptor, error, bool) {
+	type res struct {
+		d   ocispec.Descriptor
+		err error
+	}
+	ch := make(chan res, 1)
+	go func() {
+		d, err := callPack(sp, p)
+		ch <- res{d, err}
+	}()
+	select {
+	case r := <-ch:
+		return r.d, r.err, false
+	case <-time.After(callTimeout):
+		return ocispec.Descriptor{}, nil, true
+	}
+}
+
 func descOf512(mt string, data []byte) ocispec.Descriptor {
 	h := sha512.Sum512(data)
 	return ocispec.Descriptor{MediaType: mt, Digest: digest.Digest("sha512:" + hex.EncodeToString(h[:])), Size: int64(len(data))}
@@ -839,6 +978,19 @@ func specJSON(sp *spec) string {
 	if !validMap(c.ConfigAnn) {
 		c.HexConfigAnn, c.ConfigAnn = hexMap(c.ConfigAnn), nil
 	}
+	layersOK := true
+	for _, l := range c.Layers {
+		layersOK = layersOK && validDesc(l)
+	}
+	if !layersOK {
+		for _, l := range c.Layers {
+			c.HexLayers = append(c.HexLayers, showDesc(l))
+		}
+		c.Layers = nil
+	}
+	if c.Config != nil && !validDesc(*c.Config) {
+		c.HexConfig, c.Config = showDesc(*c.Config), nil
+	}
 	js, err := json.Marshal(&c)
 	if err != nil {
 		panic(err)
@@ -848,15 +1000,23 @@ func specJSON(sp *spec) string {
 
 func packCase(sp *spec) {
 	id := run.NewID()
+	var inner storage
+	var storeEntries []string
+	if chain != nil {
+		inner, sp.Target, sp.Prev = chain.inner, chain.target, append([]string{}, chain.prev...)
+		storeEntries = append(storeEntries, chain.entries...)
+		run.Count("history_chained_call")
+	} else {
+		var cleanup func()
+		inner, cleanup = newTarget(sp.Target)
+		defer cleanup()
+	}
 	rep := map[string]string{"op": "K", "spec": specJSON(sp)}
 	fail := func(sig, format string, a ...any) {
 		run.OracleFail(id, sig, fmt.Sprintf(format, a...), rep)
 	}
-	inner, cleanup := newTarget(sp.Target)
-	defer cleanup()
 
 	// pre-existing content
-	var storeEntries []string
 	seenEntry := map[string]bool{}
 	addEntry := func(d ocispec.Descriptor, data []byte) {
 		err := inner.Push(ctx, d, bytes.NewReader(data))
@@ -894,84 +1054,150 @@ func packCase(sp *spec) {
 		backed(*sp.Config)
 	}
 
-	if repo, ok := inner.(*remote.Repository); ok && allBacked(sp, false) {
+	if repo, ok := inner.(*remote.Repository); ok {
 		// everything the caller refers to is in the registry: let it validate the manifest
-		repo.Client.(*fakeRegistry).validate = true
-		run.Count("registry_validating")
+		v := allBacked(sp, false)
+		repo.Client.(*fakeRegistry).validate = v
+		if v {
+			run.Count("registry_validating")
+		}
 	}
 	rec := &recorder{inner: inner, failAt: sp.FailAt, faultErr: sp.FaultErr}
+	if chain != nil {
+		defer func() { // what this call stored is there for the next call of the history
+			for _, e := range rec.events {
+				if e.kind == "P" && e.err == nil {
+					storeEntries = append(storeEntries, fmt.Sprintf("%s:%s:%d", common.Hex(e.desc.MediaType), common.Hex(string(e.desc.Digest)), e.desc.Size))
+				}
+			}
+			prev := *sp
+			prev.Prev = nil
+			chain.entries, chain.prev = storeEntries, append(chain.prev, specJSON(&prev))
+		}()
+	}
 	var p content.Pusher = pusherOnly{rec}
 	if sp.Exists {
 		p = fullStorage{rec}
 	}
 	t0 := time.Now()
-	desc, err := callPack(sp, p)
+	desc, err, wedged := callPackWatched(sp, p)
 	t1 := time.Now()
+	if wedged {
+		// no call may block: a wedge is a finding with a replay, not a hung check
+		fail("hang", "%s on %s did not return within %v", sp.Fn, sp.Target, callTimeout)
+		run.Finish()
+		fmt.Println("a Pack call hung; see oracle.txt")
+		os.Exit(4)
+	}
 	kind := errKind(err)
 	key := createdKey(sp.Fn)
 	_, hadCreated := sp.Ann[key]
 
-	// ---- projected observable (for the model comparison)
-	var evs []string
-	manifestPushes, blobPushes := 0, 0
-	for _, e := range rec.events {
-		d := e.desc
-		isManifest := string(e.data) != "{}"
-		if errors.Is(e.err, errInjected) { // the fault hit before the content was read
-			isManifest = d.Digest != ocispec.DescriptorEmptyJSON.Digest
-		}
-		switch {
-		case e.kind == "X":
-			evs = append(evs, fmt.Sprintf("X:%s:%s:%d:%s", common.Hex(d.MediaType), common.Hex(string(d.Digest)), d.Size, showAnn(d.Annotations)))
-		case isManifest:
-			manifestPushes++
-			evs = append(evs, fmt.Sprintf("PM:%s:%s:%s", common.Hex(d.MediaType), common.Hex(d.ArtifactType),
-				showAnn(maskNow(d.Annotations, key, hadCreated, t0, t1))))
-		default:
-			blobPushes++
-			evs = append(evs, fmt.Sprintf("PB:%s:%s:%d:%s", common.Hex(d.MediaType), common.Hex(string(d.Digest)), d.Size, showAnn(d.Annotations)))
-		}
+	// ---- projected observable of one call (for the model comparison)
+	type projection struct {
+		obs                        string
+		got                        doc
+		gotMT                      string
+		stored                     []byte
+		parseErr                   error
+		manifestPushes, blobPushes int
 	}
-	ev := "-"
-	if len(evs) > 0 {
-		ev = strings.Join(evs, ";")
-	}
-	var got doc
-	var gotMT string
-	var stored []byte
-	var parseErr error
-	obs := ""
-	if err != nil {
-		obs = "ERR " + kind + " EV " + ev
-	} else {
-		var ferr error
-		stored, ferr = content.FetchAll(ctx, inner, desc)
-		if ferr != nil {
-			parseErr = ferr
+	project := func(rec *recorder, desc ocispec.Descriptor, err error, t0, t1 time.Time, withDigest bool) projection {
+		kind := errKind(err)
+		var evs []string
+		manifestPushes, blobPushes := 0, 0
+		for _, e := range rec.events {
+			d := e.desc
+			isManifest := string(e.data) != "{}"
+			if errors.Is(e.err, errInjected) { // the fault hit before the content was read
+				isManifest = d.Digest != ocispec.DescriptorEmptyJSON.Digest
+			}
+			switch {
+			case e.kind == "X":
+				evs = append(evs, fmt.Sprintf("X:%s:%s:%d:%s", common.Hex(d.MediaType), common.Hex(string(d.Digest)), d.Size, showAnn(d.Annotations)))
+			case isManifest:
+				manifestPushes++
+				evs = append(evs, fmt.Sprintf("PM:%s:%s:%s", common.Hex(d.MediaType), common.Hex(d.ArtifactType),
+					showAnn(maskNow(d.Annotations, key, hadCreated, t0, t1))))
+			default:
+				blobPushes++
+				evs = append(evs, fmt.Sprintf("PB:%s:%s:%d:%s", common.Hex(d.MediaType), common.Hex(string(d.Digest)), d.Size, showAnn(d.Annotations)))
+			}
+		}
+		ev := "-"
+		if len(evs) > 0 {
+			ev = strings.Join(evs, ";")
+		}
+		var got doc
+		var gotMT string
+		var stored []byte
+		var parseErr error
+		obs := ""
+		if err != nil {
+			obs = "ERR " + kind + " EV " + ev
 		} else {
-			got, gotMT, parseErr = parseDoc(stored)
+			var ferr error
+			stored, ferr = content.FetchAll(ctx, inner, desc)
+			if ferr != nil {
+				parseErr = ferr
+			} else {
+				got, gotMT, parseErr = parseDoc(stored)
+			}
+			if parseErr != nil {
+				obs = "OK unparsable:" + common.Hex(parseErr.Error()) + " EV " + ev
+			} else {
+				// the stored bytes themselves, with the clock's created value replaced by the placeholder
+				shown := stored
+				if raw, ok := got.Ann[key]; ok && !hadCreated {
+					if masked := maskNow(got.Ann, key, hadCreated, t0, t1); masked[key] == nowPlaceholder {
+						kq, _ := json.Marshal(key)
+						vq, _ := json.Marshal(raw)
+						pq, _ := json.Marshal(nowPlaceholder)
+						shown = bytes.Replace(stored, append(append(kq, ':'), vq...), append(append(kq, ':'), pq...), 1)
+					}
+				}
+				got.Ann = maskNow(got.Ann, key, hadCreated, t0, t1)
+				// the descriptor's size, shifted by the length difference of the placeholder when the clock's value was masked
+				size := desc.Size + int64(len(shown)-len(stored))
+				obs = fmt.Sprintf("OK %s:%s:%s %s EV %s SIZE %d BYTES %s", common.Hex(desc.MediaType), common.Hex(desc.ArtifactType),
+					showAnn(maskNow(desc.Annotations, key, hadCreated, t0, t1)), got.String(), ev, size, common.Hex(string(shown)))
+				// the digest: the descriptor's own, or -- when the clock's value was masked -- that of the shown bytes
+				dg := "-"
+				if withDigest {
+					dg = common.Hex(string(desc.Digest))
+					if len(shown) != len(stored) || !bytes.Equal(shown, stored) {
+						dg = common.Hex(sha(shown))
+					}
+				}
+				obs += " DIGEST " + dg
+			}
 		}
-		if parseErr != nil {
-			obs = "OK unparsable:" + common.Hex(parseErr.Error()) + " EV " + ev
-		} else {
-			got.Ann = maskNow(got.Ann, key, hadCreated, t0, t1)
-			obs = fmt.Sprintf("OK %s:%s:%s %s EV %s", common.Hex(desc.MediaType), common.Hex(desc.ArtifactType),
-				showAnn(maskNow(desc.Annotations, key, hadCreated, t0, t1)), got.String(), ev)
-		}
+
+		return projection{obs, got, gotMT, stored, parseErr, manifestPushes, blobPushes}
 	}
-	fa := "-"
-	if sp.FailAt >= 0 {
-		fa = strconv.Itoa(sp.FailAt)
-	}
+	withDigest := run.Evaluations%40 == 0 // the modelled SHA-256 is slow: a sample
+	pr := project(rec, desc, err, t0, t1, withDigest)
+	obs, got, gotMT, stored, parseErr := pr.obs, pr.got, pr.gotMT, pr.stored, pr.parseErr
+	manifestPushes, blobPushes := pr.manifestPushes, pr.blobPushes
 	b01 := func(x bool) string {
 		if x {
 			return "1"
 		}
 		return "0"
 	}
-	model := fmt.Sprintf("K %s %s %s %s %s %s %s %s %s %s %s %s", sp.Fn, b01(sp.Exists), keyKind(sp.Target), fa,
-		common.Hex(sp.AT), showODesc(sp.Subject), showList(sp.Layers, sp.LayersNil), showAnn(sp.Ann), showODesc(sp.Config),
-		showAnn(sp.ConfigAnn), strings.Join(append([]string{"S"}, storeEntries...), ","), common.Hex(specJSON(sp)))
+	modelLine := func(failAt int, entries []string, withDigest bool) string {
+		fa := "-"
+		if failAt >= 0 {
+			fa = strconv.Itoa(failAt)
+		}
+		if withDigest {
+			fa += "d"
+		}
+		return fmt.Sprintf("K %s %s %s %s %s %s %s %s %s %s %s %s", sp.Fn, b01(sp.Exists), keyKind(sp.Target), fa,
+			common.Hex(sp.AT), showODesc(sp.Subject), showList(sp.Layers, sp.LayersNil), showAnn(sp.Ann), showODesc(sp.Config),
+			showAnn(sp.ConfigAnn), strings.Join(append([]string{"S"}, entries...), ","), common.Hex(specJSON(sp)))
+	}
+	model := modelLine(sp.FailAt, storeEntries, withDigest)
 	run.Case(id, model, obs)
 	run.Count("fn_" + sp.Fn)
 	run.Count("target_" + sp.Target + map[bool]string{true: "+exists", false: ""}[sp.Exists])
@@ -1113,7 +1339,32 @@ func packCase(sp *spec) {
 		if sp.Exists {
 			p2 = fullStorage{rec2}
 		}
+		// history: the same call again on the same target, compared with the model started from the
+		// store as the first call left it (what it newly pushed is now there)
+		entries2 := append([]string{}, storeEntries...)
+		for _, e := range rec.events {
+			if e.kind == "P" && e.err == nil {
+				x := fmt.Sprintf("%s:%s:%d", common.Hex(e.desc.MediaType), common.Hex(string(e.desc.Digest)), e.desc.Size)
+				if t := e.desc.Annotations[ocispec.AnnotationTitle]; t != "" && sp.Target == "file" {
+					x += ":" + common.Hex(t)
+				}
+				entries2 = append(entries2, x)
+			}
+		}
+		t2 := time.Now()
 		d2, err2 := callPack(sp, p2)
+		pr2 := project(rec2, d2, err2, t2, time.Now(), withDigest)
+		run.Case(run.NewID(), modelLine(-1, entries2, withDigest), pr2.obs)
+		run.Count("history_second_call")
+		if err2 == nil && (sp.Target == "memory" || sp.Target == "oci") {
+			// idempotence on content-addressed stores: nothing is stored anew by the repeat
+			for _, e := range rec2.events {
+				if e.kind == "P" && e.err == nil {
+					fail("repeat-call-pushed", "repeating the call stored %s %s again", e.desc.MediaType, e.desc.Digest)
+				}
+			}
+			run.Count("idempotence_checked")
+		}
 		if err2 != nil && sp.Target == "file" && errors.Is(err2, file.ErrDuplicateName) &&
 			(sp.Ann[ocispec.AnnotationTitle] != "" || sp.ConfigAnn[ocispec.AnnotationTitle] != "") {
 			// the file store refuses to write a named file twice (not ErrAlreadyExists): repeating
